@@ -158,12 +158,12 @@ PROPS = {
         "level": "proof",
         "verus": ["parser_core"],
         "frame": ["grammar_uses_primitives_only"],
-        "explanation": "PARTIAL. Verus proves for parse_type and parse_selection_set: after the type / selection set, expect_end_of_input skips ignored tokens and "
-                       "the returned tree has no error only if the look-ahead token is None or EOF, i.e. nothing but ignored tokens was left; for parse_type additionally that "
-                       "no error means a type was actually consumed (ty::parse returned Ok and added at least one significant token: a missing type is always reported); "
-                       "the tree reports exactly the parser's errors.",
+        "explanation": "Verus proves for parse_type, for every token stream: the returned tree has no error only if the kinds of the significant tokens added to the tree "
+                       "are exactly one Type of the grammar Type :: Name | [ Type ] | Name ! | [ Type ] ! (ghost sequence of significant token kinds; ty::parse's postcondition "
+                       "type_grammar, expect's 'consumes the expected token or reports'), and the look-ahead after skipping ignored tokens is EOF (nothing else is left); a missing type "
+                       "is always reported. For parse_selection_set only the end-of-input clause is proved. The tree reports exactly the parser's errors.",
         "assumptions": ['the assumed Lexer contract in the parser_core prelude (items carry the remaining text in order; a measure decreases per item; None only after the limit or at the end) -- C03, not proved', 'Name tokens produced by the lexer satisfy the Name grammar, so grammar::name::validate_name never reports (C03, not proved)', "the ~55 grammar functions that are not extracted keep the primitives' preconditions (they peek before they consume) and reach tokens only through the primitives (second half: frame check grammar_uses_primitives_only)", 'rowan GreenNodeBuilder: token() appends text, start/finish/wrap add none; Drop of NodeGuard has no spec', 'recursion limit < usize::MAX'],
-        "not_decided": ["that the consumed tokens form exactly ONE type reference / selection set (needs a grammar-membership ghost; the selection grammar runs through closures)",
-                        "leading tokens (the type entry point drops leading ignored tokens only)", "the compiler-side mapping syntax error => Err (apollo_compiler::parser::parse_type, parse_field_set)"],
+        "not_decided": ["that the tokens consumed by parse_selection_set form exactly ONE selection set (the selection grammar runs through closures: selection() is a shim)",
+                        "the compiler-side mapping syntax error => Err (apollo_compiler::parser::parse_type, parse_field_set)"],
     },
 }
